@@ -165,7 +165,7 @@ let () =
                | (g, f, a, c) :: r -> members := (g, f, a, t :: c) :: r | [] -> raise (Unsupported "con before handler") in
              List.iter (fun t ->
                  if starts "H:f=" t then members := (false, int_of_string (after "H:f=" t), [], []) :: !members
-                 else if starts "G:" t then
+                 else if starts "G:" t || starts "GV:" t then   (* GV: a value handler as member - the same as far as the evaluation goes *)
                    (match String.split_on_char ':' t with
                     | [_; _; f] -> members := (true, int_of_string (after "f=" f), [], []) :: !members
                     | _ -> raise (Unsupported "group token"))
@@ -196,7 +196,7 @@ let () =
                         let opts = match rest with [] -> [] | o :: _ -> split_on '/' o in
                         let rule = List.fold_left (fun (m, cd) o ->
                             match String.split_on_char '=' o with
-                            | [""] -> (m, cd)
+                            | [""] | ["subctor"] -> (m, cd)
                             | ["man"] -> (true, cd)
                             | ["card"; v] ->
                                 (match split_on '~' v with
